@@ -312,23 +312,29 @@ impl Gen {
                     0 => None,
                     1 => Some(mq.next),
                     2 => Some(match rng.below(10) {
-                        0 => mq.next + 1 + rng.below(1 << 61),
+                        0 => mq.next.saturating_add(1 + rng.below(1 << 61)),
                         // just past a power of two (32-bit truncation, sign bits, ...), as long as it lies ahead
                         1 => {
                             let p = 1u64 << *rng.pick(&[8u32, 16, 31, 32, 33, 48, 61]);
                             let cand = p - 1 + rng.below(3);
-                            if cand > mq.next { cand } else { mq.next + 1 + rng.below(1000) }
+                            if cand > mq.next { cand } else { mq.next.saturating_add(1 + rng.below(1000)) }
                         }
                         2 => {
                             let cand = (1u64 << 62) - 1 - rng.below(1000);
-                            if cand > mq.next { cand } else { mq.next + 1 }
+                            if cand > mq.next { cand } else { mq.next.saturating_add(1) }
                         }
                         // beyond the sign bit (the statements speak of positions below 2^62; the API takes any u64)
                         3 if rng.chance(1, 3) => {
                             let cand = (1u64 << 63) + rng.below(1 << 20);
-                            if cand > mq.next { cand } else { mq.next + 1 }
+                            if cand > mq.next { cand } else { mq.next.saturating_add(1) }
                         }
-                        _ => mq.next + 1 + rng.below(1000),
+                        // the last positions there are: u64::MAX itself is never a record position, and a batch that
+                        // does not fit below it is rejected as a whole, without a trace
+                        4 if rng.chance(1, 2) => {
+                            let cand = u64::MAX - rng.below(8);
+                            if cand > mq.next { cand } else { mq.next.saturating_add(1) }
+                        }
+                        _ => mq.next.saturating_add(1 + rng.below(1000)),
                     }),
                     3 => mq.next.checked_sub(1),
                     _ => {
@@ -461,9 +467,9 @@ impl Gen {
                 let upto = match (rng.below(20), mq.recs.first(), mq.recs.last()) {
                     (0..=11, Some(f), Some(l)) => rng.range(f.pos, l.pos),
                     (12..=14, _, Some(l)) => l.pos,
-                    (15..=16, _, _) => mq.next + rng.below(50),
+                    (15..=16, _, _) => mq.next.saturating_add(rng.below(50)),
                     (17, Some(f), _) => f.pos.saturating_sub(1 + rng.below(3)),
-                    (18, _, _) => 0,
+                    (18, _, _) => if rng.chance(1, 5) { u64::MAX - rng.below(3) } else { 0 },
                     _ => mq.next.saturating_sub(1),
                 };
                 Op::Truncate { q, upto }
@@ -491,7 +497,7 @@ impl Gen {
                     5 if mq.next >= 1 => Op::Append { q, pos: Some(mq.next - 1), lens: vec![33, 2, 1000], uid },
                     6 => Op::Append { q, pos: None, lens: vec![], uid },
                     7 => Op::Append { q, pos: Some(mq.next), lens: vec![], uid },
-                    8 => Op::Append { q, pos: Some(mq.next + 5), lens: vec![], uid },
+                    8 => Op::Append { q, pos: Some(mq.next.saturating_add(5)), lens: vec![], uid },
                     _ => Op::Create { q },
                 }
             }
